@@ -1,7 +1,7 @@
 (* drv_c11.ml — case: "kind\tkeys\tprefill\tcap\tscript\tflush\tcalls" (see harness/src/c11.rs).
    S: "err-io" iff the model says the session ends with a call returning Err(Io) (all earlier calls
       Ok, no panic); "finished" iff into_inner is Ok and the sink holds prefill ++ the in-memory
-      bytes and was flushed.
+      bytes, was flushed and accepted nothing after its last successful flush.
    M: index of the failing API call and its error kind, then the same details as C07.
    Family "cont\tkind\tkeys\tk=<k>/<W>\tat=..\t<fault>" (caller keeps going after the error):
    S = finished=no whenever the fault is consumed (Writer.cont_spec_finished), M = na. *)
@@ -50,19 +50,21 @@ let fnv (l : n list) (upto : int) : int =
   let h = ref 0x811c9dc5 in
   List.iteri (fun i b -> if i < upto then h := ((!h lxor (int_of_n b)) * 16777619) land 0xffffffff) l;
   !h
-type run = { rcalls : callres list; rfin : callres option; data : n list; wcalls : int; flushes : int; buffered : n list }
+(* unfl: bytes the sink accepted after its last successful flush, read (like data, wcalls and flushes)
+   AFTER a BufWriter has been dropped - as the harness reads ScriptSink.unflushed *)
+type run = { rcalls : callres list; rfin : callres option; data : n list; wcalls : int; flushes : int; buffered : n list; unfl : int }
 let run_case (cap : string) script fl prefill calls fin : run =
   if cap = "-" then
     let o = x_sink_session script fl prefill calls fin in
     { rcalls = o.o_calls; rfin = o.o_fin; data = o.o_final.s_data; wcalls = int_of_nat o.o_final.s_calls;
-      flushes = int_of_nat o.o_final.s_flushes; buffered = [] }
+      flushes = int_of_nat o.o_final.s_flushes; buffered = []; unfl = int_of_nat o.o_final.s_unflushed }
   else
     let o = x_buf_session (nat_of_int (int_of_string cap)) script fl prefill calls fin in
     (* the harness (or the builder, on an error path) finally drops the BufWriter *)
     let b = x_buf_drop o.o_final in
     let s = b.b_inner in
     { rcalls = o.o_calls; rfin = o.o_fin; data = s.s_data; wcalls = int_of_nat s.s_calls;
-      flushes = int_of_nat s.s_flushes; buffered = o.o_final.b_buf }
+      flushes = int_of_nat s.s_flushes; buffered = o.o_final.b_buf; unfl = int_of_nat s.s_unflushed }
 (* per call "status:bytes_written"; bytes_written() cannot be observed when the constructor failed *)
 let calls_string (r : run) : string =
   String.concat "," (List.mapi (fun i (((st, bw), _), _) ->
@@ -72,8 +74,8 @@ let fin_string (r : run) : string =
 let total_bytes calls fin : int =
   List.fold_left (fun a c -> List.fold_left (fun a ch -> a + List.length ch) a c) 0 (fin :: calls)
 let m_common (r : run) npre total : string =
-  Printf.sprintf "%s|%s|len=%d|calls=%d|fl=%d|dig=%08x" (calls_string r) (fin_string r)
-    (List.length r.data) r.wcalls r.flushes (fnv r.data (npre + total))
+  Printf.sprintf "%s|%s|len=%d|calls=%d|fl=%d|dig=%08x|unfl=%d" (calls_string r) (fin_string r)
+    (List.length r.data) r.wcalls r.flushes (fnv r.data (npre + total)) r.unfl
 let handle (line : string) : string =
   match split_on '\t' line with
   | [_kind; _keys; prefill; cap; script; flush; calls] ->
@@ -96,7 +98,7 @@ let handle (line : string) : string =
       else match fe with
         | Some (i, _) -> if i = List.length all - 1 then "err-io" else "continued-after-error"
         | None ->
-          if r.data = prefill @ m.o_final.s_data && r.flushes >= 1 && r.buffered = [] then "finished"
+          if r.data = prefill @ m.o_final.s_data && r.flushes >= 1 && r.unfl = 0 && r.buffered = [] then "finished"
           else "finished-incomplete" in
     let f = match fe with Some (i, k) -> Printf.sprintf "fail=%d:%s" i (string_of_kind k) | None -> "fail=none" in
     "S:" ^ s ^ "\tM:" ^ f ^ "|" ^ m_common r npre total
